@@ -154,7 +154,7 @@ class Source:
 
 TOKEN = re.compile(
     r"\s*(?:(?P<float>\d+\.\d*(?!\.)|\d+\.(?=\s|\)|,|;|$))|(?P<int>\d+)|(?P<id>[A-Za-z_]\w*(?:::[A-Za-z_]\w*)*)"
-    r"|(?P<op>=>|==|!=|<=|>=|&&|\|\||>>|[-+*/%()<>!,.{}|=;\[\]&]))"
+    r"|(?P<op>=>|==|!=|<=|>=|&&|\|\||>>|[-+*/%()<>!,.{}|=;\[\]&^]))"
 )
 
 
@@ -188,11 +188,14 @@ KEYWORDS = {"if", "else", "match", "let", "as", "true", "false", "max", "min", "
 
 
 class Parser:
-    def __init__(self, toks, site, uninterp=()):
+    def __init__(self, toks, site, uninterp=(), features=()):
         self.t = toks
         self.i = 0
         self.site = site
         self.uninterp = set(uninterp)   # names of the site's uninterpreted function symbols
+        # grammar extensions a site must switch on explicitly: "exp" / "sqrt" (method form of an uninterpreted symbol),
+        # "method_maxmin" (`a.max(b)`), "unwrap_or" (`opt.unwrap_or(d)` / `opt.unwrap_or_else(|| d)`), "xor" (`a ^ b` on bool)
+        self.features = set(features)
 
     def peek(self, k=0):
         return self.t[self.i + k] if self.i + k < len(self.t) else ("eof", "")
@@ -238,13 +241,22 @@ class Parser:
         return a
 
     def p_cmp(self):
-        a = self.p_shift()
+        a = self.p_xor()
         if self.peek()[0] == "op" and self.peek()[1] in ("==", "!=", "<", "<=", ">", ">="):
             op = self.next()[1]
-            b = self.p_shift()
+            b = self.p_xor()
             if self.peek()[0] == "op" and self.peek()[1] in ("==", "!=", "<", "<=", ">", ">="):
                 self.fail("chained comparison")
             return ("cmp", op, a, b)
+        return a
+
+    def p_xor(self):
+        a = self.p_shift()
+        while self.at("op", "^"):
+            if "xor" not in self.features:
+                self.fail("operator `^` (only at sites that declare bool xor)")
+            self.next()
+            a = ("xor", a, self.p_shift())
         return a
 
     def p_shift(self):
@@ -315,6 +327,26 @@ class Parser:
                 e = self.expr()
                 self.expect("op", ")")
                 a = ("powi", a, e)
+            elif name in ("exp", "sqrt") and name in self.features:
+                # `x.exp()` / `x.sqrt()`: application of the site's UNINTERPRETED symbol `exp` / `sqrt` : Rat -> Rat
+                self.expect("op", ")")
+                a = ("app", name, [a])
+            elif name in ("max", "min") and "method_maxmin" in self.features:
+                # method form `a.max(b)` (only at sites that declare it)
+                e = self.expr()
+                self.expect("op", ")")
+                a = (name, a, e)
+            elif name == "unwrap_or" and "unwrap_or" in self.features:
+                # `opt.unwrap_or(default)` on a declared Option-typed variable (only at sites that declare it)
+                e = self.expr()
+                self.expect("op", ")")
+                a = ("getD", a, e)
+            elif name == "unwrap_or_else" and "unwrap_or" in self.features:
+                # `opt.unwrap_or_else(|| default)`: the closure takes no argument, so it is the lazily evaluated default
+                self.expect("op", "||")
+                e = self.expr()
+                self.expect("op", ")")
+                a = ("getD", a, e)
             else:
                 self.fail("method call `.%s()`" % name)
         return a
@@ -483,16 +515,16 @@ class Parser:
         self.fail("unexpected %r" % (val or "end of expression"))
 
 
-def parse_expr(text, site, uninterp=()):
-    p = Parser(lex(text, site), site, uninterp)
+def parse_expr(text, site, uninterp=(), features=()):
+    p = Parser(lex(text, site), site, uninterp, features)
     e = p.expr()
     p.done()
     return e
 
 
-def parse_block_body(text, site, uninterp=()):
+def parse_block_body(text, site, uninterp=(), features=()):
     """`let` chain + tail expression, as the inside of a block"""
-    p = Parser(lex("{" + text + "}", site), site, uninterp)
+    p = Parser(lex("{" + text + "}", site), site, uninterp, features)
     e = p.p_block()
     p.done()
     return e
@@ -595,6 +627,19 @@ class Emit:
             if ta != "Bool" or tb != "Bool":
                 self.fail("`%s` on %s, %s" % (k, tyname(ta), tyname(tb)))
             return "(%s %s %s)" % (a, "&&" if k == "and" else "||", b), "Bool"
+        if k == "xor":
+            a, ta = self.go(e[1], env, ind)
+            b, tb = self.go(e[2], env, ind)
+            if ta != "Bool" or tb != "Bool":
+                self.fail("`^` on %s, %s (only bool xor)" % (tyname(ta), tyname(tb)))
+            return "(Bool.xor %s %s)" % (a, b), "Bool"
+        if k == "getD":
+            a, ta = self.go(e[1], env, ind)
+            b, tb = self.go(e[2], env, ind)
+            if not (isinstance(ta, tuple) and ta[0] == "opt" and ta[1] == tb):
+                self.fail("`.unwrap_or(…)` of %s with default %s" % (tyname(ta), tyname(tb)))
+            self.note("`.unwrap_or(d)` / `.unwrap_or_else(|| d)` is `Option.getD` (`d` has no effect, so eager = lazy)")
+            return "(Option.getD %s %s)" % (a, b), tb
         if k == "abs":
             a, t = self.go(e[1], env, ind)
             if t != "Rat":
@@ -735,7 +780,59 @@ class Emit:
             if k == "or":
                 return "(if %s then [] else %s)" % (va, db)
             return "(if %s then %s else [])" % (va, db)
-        self.fail("gen_bool under `%s` (only `||` / `&&` chains)" % k)
+        if k == "if":
+            if has_gen_bool(e[1]):
+                self.fail("gen_bool in the condition of an `if`")
+            return "(if %s then %s else %s)" % (self.go(e[1], env)[0], self.draws(e[2], env), self.draws(e[3], env))
+        self.fail("gen_bool under `%s` (only `||` / `&&` chains and the branches of `if`)" % k)
+
+    def evals(self, e, var, env=None):
+        """Lean term (Nat): how many times the variable `var` (a value DRAWN from the rng, e.g. `rng.gen::<f64>()` after the
+        site's normalisation) is evaluated, under Rust's evaluation order: both operands of arithmetic / comparisons, only the
+        taken branch of `if`, short-circuit `||` / `&&`; `let` values and `if` conditions may not contain it"""
+        env = self.env if env is None else env
+        if not occurs(e, var):
+            return "(0 : Nat)"
+        k = e[0]
+        if k == "var":
+            return "(1 : Nat)"
+        if k in ("bin", "cmp"):
+            parts = [self.evals(x, var, env) for x in (e[2], e[3]) if occurs(x, var)]
+            return parts[0] if len(parts) == 1 else "(%s + %s)" % tuple(parts)
+        if k in ("neg", "not", "abs"):
+            return self.evals(e[1], var, env)
+        if k == "cast":
+            return self.evals(e[3], var, env)
+        if k == "if":
+            if occurs(e[1], var):
+                self.fail("drawn value `%s` in the condition of an `if`" % var)
+            return "(if %s then %s else %s)" % (self.go(e[1], env)[0], self.evals(e[2], var, env), self.evals(e[3], var, env))
+        if k == "let":
+            _, name, v, body = e
+            if occurs(v, var) or name == var:
+                self.fail("drawn value `%s` bound by / in the value of a `let`" % var)
+            a, ta = self.go(v, env)
+            env2 = dict(env)
+            env2[name] = ta
+            return "(let %s : %s := %s\n  %s)" % (name, tyname(ta), a, self.evals(body, var, env2))
+        if k in ("or", "and"):
+            if occurs(e[1], var):
+                self.fail("drawn value `%s` on the left of `%s`" % (var, "||" if k == "or" else "&&"))
+            va = self.go(e[1], env)[0]
+            r = self.evals(e[2], var, env)
+            return "(if %s then (0 : Nat) else %s)" % (va, r) if k == "or" else "(if %s then %s else (0 : Nat))" % (va, r)
+        self.fail("drawn value `%s` under `%s`" % (var, k))
+
+
+def occurs(e, var):
+    """does the variable `var` occur in the AST `e` (any position)"""
+    if isinstance(e, tuple):
+        if len(e) == 2 and e[0] == "var":
+            return e[1] == var
+        return any(occurs(x, var) for x in e[1:])
+    if isinstance(e, list):
+        return any(occurs(x, var) for x in e)
+    return False
 
 
 def has_gen_bool(e):
@@ -805,6 +902,25 @@ DEF_GROUP = {
     "mat_var_size_rule": "Size",
     "swap_on_chunks": "Tempering",
 }
+# session 4: classical sampler (graph.rs), stepper cadence (qmc_stepper.rs, both tempering drivers), RVB arithmetic (rvb.rs),
+# BondContainer bookkeeping (bondcontainer.rs), autocorrelation normalisation (autocorrelations.rs)
+for _n in ("should_flip", "should_flip_draws", "flip_summand_do_spin_flip", "flip_summand_delta_e", "spin_delta_total", "edge_delta_half", "edge_delta_total",
+           "worm_bias_term", "energy_coupling_term", "energy_bias_term", "energy_fold_step", "only_basic_default", "nspinupdates", "nedgeupdates", "nwormupdates",
+           "move_kinds", "importance_weight", "cum_push", "cum_next", "importance_guard"):
+    DEF_GROUP["classical_" + _n] = "Classical"
+for _n in ("sampling_freq", "sample_cond", "steps_measured_next", "total_n_next", "average_n"):
+    DEF_GROUP["stepper_" + _n] = "Stepper"
+CHUNK_PIECES = ("init_remaining", "init_to_swap", "init_to_sample", "continue", "t", "energy_acc", "to_sample_dec", "to_swap_dec", "remaining_dec", "swap_due",
+                "to_swap_reset", "sample_due", "to_sample_reset", "final_energy")
+for _n in CHUNK_PIECES:
+    for _f in ("timesteps_sample", "parallel_timesteps_sample"):
+        DEF_GROUP["chunk_%s_%s" % (_n, _f)] = "Stepper"
+for _n in ("calculate_mult", "should_mutate", "should_mutate_draws", "mult_early_exit_1", "mult_early_exit_2", "pop_total_weight", "pop_f_ratio", "push_weight_default", "push_new_weight"):
+    DEF_GROUP["rvb_" + _n] = "Rvb"
+for _n in ("grow_cond", "grow_len", "insert_update_total", "insert_new_address", "insert_new_total", "last_index", "remove_total", "correct_total", "pick_sub", "pick_stop"):
+    DEF_GROUP["bc_" + _n] = "BondContainer"
+for _n in ("mean", "center", "norm", "final", "spin_value_calculate_variable_autocorrelation", "spin_value_calculate_spin_product_autocorrelation"):
+    DEF_GROUP["autocorr_" + _n] = "Autocorr"
 PRELUDE_DEFS = ["fabs", "EPSILON", "powi"]      # fixed text, group "Prelude"
 GROUPS = ["Prelude"] + sorted(set(DEF_GROUP.values()))
 
@@ -891,13 +1007,25 @@ class Gen:
             raise Unknown(name, "internal: definition without a group in DEF_GROUP")
         self.defs.append((name, "/-- %s -/\ndef %s %s : %s :=\n  %s\n" % (doc, name, ptxt, tyname(rty), body)))
 
-    def translate(self, name, site, src, off, text, ast, params, doc, want=None, what=None, draws=False):
-        """type-check `ast` under `params` and add the definition(s)"""
+    def translate(self, name, site, src, off, text, ast, params, doc, want=None, what=None, draws=False, drawn=None):
+        """type-check `ast` under `params` and add the definition(s); `drawn` = a parameter that stands for a value drawn from
+        the rng at the point where it is evaluated: `<name>_draws : Nat` then counts its evaluations"""
         em = Emit(site, dict(params))
         body, ty = em.go(ast)
         if want is not None and ty != want:
             raise Unknown(site, "expression has type %s, expected %s" % (tyname(ty), tyname(want)))
         ps = list(params)
+        if drawn is not None:
+            if em.uses_gen_bool:
+                raise Unknown(site, "gen_bool and a drawn value in one expression")
+            if not occurs(ast, drawn):
+                raise Unknown(site, "the drawn value `%s` does not occur" % drawn)
+            cnt = em.evals(ast, drawn)
+            em.note("`%s` stands for the value of the rng draw made where it is evaluated; `%s_draws` counts the evaluations (only the taken `if` branch)" % (drawn, name))
+            self.add(name, ps, ty, body, doc)
+            self.add(name + "_draws", [q for q in ps if q[0] != drawn], "Nat", cnt, "number of rng draws (`%s`) made by `%s`" % (drawn, name))
+            self.record(name, src, off, text, em.notes, what)
+            return body, ty
         if em.uses_gen_bool:
             em.note("`rng.gen_bool(x)` is an uninterpreted function symbol `gen_bool : Rat → Bool`; `%s_draws` lists the arguments of the calls Rust's short-circuit evaluation makes" % name)
             self.add(name, [("gen_bool", "Rat → Bool")] + ps, ty, body, doc)
@@ -1393,7 +1521,503 @@ def run(repo):
 
     g.section(['Size'], _sec_11)
 
+    # ---- 16. classical sampler, stepper cadence, RVB arithmetic, BondContainer, autocorrelation ----
+    extra_sites(g)
+
     return g
+
+
+# ================================================================================================
+# sites added in session 4: classical sampler, stepper cadence, RVB arithmetic, BondContainer, autocorrelation
+# ================================================================================================
+FN_RR = ("fn", ("Rat",), "Rat")
+
+
+def flat(text):
+    return " ".join(text.split())
+
+
+def one_match(text, regex, site, what, flags=re.S):
+    """exactly one match of `regex` in `text` (fail closed otherwise)"""
+    ms = list(re.finditer(regex, text, flags))
+    if len(ms) != 1:
+        raise Unknown(site, "expected exactly one `%s`, found %d" % (what, len(ms)))
+    return ms[0]
+
+
+def need(text, literal, site, n=1):
+    """the flattened text must contain the literal spelling exactly n times"""
+    if flat(text).count(literal) != n:
+        raise Unknown(site, "expected %d × the literal spelling `%s`, found %d" % (n, literal, flat(text).count(literal)))
+
+
+def rewrite(text, pairs, site):
+    """literal spellings -> variables; every spelling must occur (plain string replacement, for spellings the lexer cannot read)"""
+    for old, new in pairs:
+        if old not in text:
+            raise Unknown(site, "expected the spelling `%s`" % old)
+        text = text.replace(old, new)
+    return text
+
+
+def extra_sites(g):
+    GRAPH = "src/classical/graph.rs"
+    STEPPER = "src/sse/qmc_traits/qmc_stepper.rs"
+    TEMPER = "src/sse/parallel_tempering/tempering_container.rs"
+    RVB = "src/sse/qmc_traits/rvb.rs"
+    BOND = "src/util/bondcontainer.rs"
+    AUTO = "src/sse/autocorrelations.rs"
+
+    # ---- C1. classical: should_flip -------------------------------------------------------------
+    # accepted shape: `fn should_flip(rng: &mut R, beta: f64, delta_e: f64) -> bool` whose body is a let-chain / if-else over
+    # beta, delta_e, ONE `rng.gen::<f64>()` (↦ drawn value `gen_f64`), `.exp()` (↦ uninterpreted `exp`); exactly three callers
+    def _c1():
+        src = g.file(GRAPH)
+        site = GRAPH + "::should_flip"
+        f = src.fn("should_flip", site)
+        if flat(f["sig"]) != "fn should_flip(rng: &mut R, beta: f64, delta_e: f64) -> bool":
+            raise Unknown(site, "signature shape")
+        body = src.body(f)
+        if body.count("rng.gen::<f64>()") != 1 or len(re.findall(r"\brng\b", body)) != 1:
+            raise Unknown(site, "expected exactly one use of the rng, spelled `rng.gen::<f64>()`")
+        ast = parse_block_body(body.replace("rng.gen::<f64>()", "gen_f64"), site, features=("exp",))
+        g.translate("classical_should_flip", site, src, f["start"], src.src[f["start"]:f["body1"] + 1], ast,
+                    [("exp", FN_RR), ("gen_f64", "Rat"), ("beta", "Rat"), ("delta_e", "Rat")],
+                    "`GraphState::should_flip` (src/classical/graph.rs); `exp` = `f64::exp` (uninterpreted), `gen_f64` = the value of `rng.gen::<f64>()`",
+                    want="Bool", what="should_flip", drawn="gen_f64")
+        calls = [(src.enclosing(m.start()), flat(m.group(0))) for m in re.finditer(r"if !?Self::should_flip\([^)]*\) \{", src.src)]
+        want = [("do_spin_flip", "if Self::should_flip(rng, beta, delta_e) {"), ("do_edge_flip", "if Self::should_flip(rng, beta, delta_e) {"),
+                ("do_worm_flip", "if !Self::should_flip(rng, beta, total_he) {")]
+        if calls != want or len(re.findall(r"should_flip\(", src.src[:src.src.find("mod classic_tests")])) != 4:
+            raise Unknown(site, "callers: expected `if Self::should_flip(rng, beta, delta_e) {` in do_spin_flip, do_edge_flip and `if !Self::should_flip(rng, beta, total_he) {` in do_worm_flip, found %s" % calls)
+        need(src.body(src.fn("do_spin_flip", site)), "if Self::should_flip(rng, beta, delta_e) { state[random_index] = !state[random_index] }", GRAPH + "::do_spin_flip")
+        need(src.body(src.fn("do_edge_flip", site)), "if Self::should_flip(rng, beta, delta_e) { state[va] = !state[va]; state[vb] = !state[vb]; }", GRAPH + "::do_edge_flip")
+
+    g.section(["Classical"], _c1)
+
+    # ---- C2. classical: the per-neighbour summand of the flip energy (do_spin_flip, delta_e) -------
+    # accepted shape: `.map(|(indx, j)| { <let chain> <expr> })` over curr_value, state[indx] (↦ state_indx), j; `^` = bool xor
+    def _c2():
+        src = g.file(GRAPH)
+        ms = [m for m in all_matches(src, r"\.map\(\|\(indx, j\)\| \{", GRAPH) if src.enclosing(m.start()) != "get_energy"]
+        expect_sites(src, ms, ["do_spin_flip", "delta_e"], "flip summand closures `.map(|(indx, j)| {`")
+        items = []
+        for m in ms:
+            with g.tolerate(["Classical"]) as t:
+                fn = src.enclosing(m.start())
+                site = "%s::%s::flip summand" % (GRAPH, fn)
+                name = t.name = "classical_flip_summand_" + fn
+                i0, i1 = closure_after(src, m.end() - 1, site)
+                if flat(src.src[i1 + 1:i1 + 30]).split(";")[0].replace(" ", "") not in (").sum()", ").sum()}"):
+                    raise Unknown(site, "the closure is not followed by `).sum()`")
+                txt = rewrite(src.src[i0 + 1:i1], [("state[indx]", "state_indx")], site)
+                ast = parse_block_body(txt, site, features=("xor",))
+                body_, _ = g.translate(name, site, src, m.start(), src.src[m.start():i1 + 1], ast,
+                                       [("curr_value", "Bool"), ("state_indx", "Bool"), ("j", "Rat")],
+                                       "summand of the flip energy in `%s`: contribution of the neighbour `(indx, j)`; `state_indx` = `state[indx]`" % fn, want="Rat")
+                items.append((site, body_, name, "Classical"))
+        same(g, items, "flip-energy summand")
+        fb = src.body(src.fn("do_spin_flip", GRAPH + "::do_spin_flip"))
+        for lit in ("let random_index = rng.gen_range(0..state.len());", "let curr_value = state[random_index];", "let binding_slice = &binding_mat[random_index];",
+                    "let delta_e: f64 = binding_slice .iter() .cloned() .map(|(indx, j)| {"):
+            need(fb, lit, GRAPH + "::do_spin_flip")
+        fb = src.body(src.fn("delta_e", GRAPH + "::delta_e"))
+        for lit in ("let curr_value = state[v];", "binding_mat[v] .iter() .cloned() .filter(|(ov, _)| Some(*ov) != omit) .map(|(indx, j)| {"):
+            need(fb, lit, GRAPH + "::delta_e")
+
+    g.section(["Classical"], _c2)
+
+    # ---- C3. classical: bias terms and totals of the spin / edge / worm moves ----------------------
+    def _c3():
+        src = g.file(GRAPH)
+        # do_spin_flip: `let delta_e = delta_e + (…biases[random_index]…);`
+        site = GRAPH + "::do_spin_flip::delta_e total"
+        f = src.fn("do_spin_flip", site)
+        m = one_match(src.body(f), r"let delta_e = (delta_e [^;]*);", site, "let delta_e = delta_e …;")
+        txt = rewrite(m.group(1), [("biases[random_index]", "bias")], site)
+        g.translate("classical_spin_delta_total", site, src, f["body0"] + 1 + m.start(), m.group(0), parse_expr(txt, site),
+                    [("delta_e", "Rat"), ("bias", "Rat"), ("curr_value", "Bool")],
+                    "`let delta_e = delta_e + …` of `do_spin_flip`: coupling part + bias part; `bias` = `biases[random_index]`", want="Rat")
+        # do_edge_flip: the closure `|va, vb| { let delta_e = Self::delta_e(va, Some(vb), state, binding_mat); delta_e + (…) }` and the sum
+        site = GRAPH + "::do_edge_flip::delta_e closure"
+        f = src.fn("do_edge_flip", site)
+        fb = src.body(f)
+        m = one_match(fb, r"let delta_e = \|va: usize, vb: usize\| -> f64 \{", site, "let delta_e = |va: usize, vb: usize| -> f64 {")
+        off = f["body0"] + 1 + m.end() - 1
+        i1 = match_brace(src.src, off, site)
+        txt = rewrite(src.src[off + 1:i1], [("Self::delta_e(va, Some(vb), state, binding_mat)", "de_omit"), ("biases[va]", "bias_va"), ("state[va]", "state_va")], site)
+        g.translate("classical_edge_delta_half", site, src, off, src.src[off:i1 + 1], parse_block_body(txt, site),
+                    [("de_omit", "Rat"), ("bias_va", "Rat"), ("state_va", "Bool")],
+                    "the closure `delta_e(va, vb)` of `do_edge_flip`; `de_omit` = `Self::delta_e(va, Some(vb), state, binding_mat)`, `bias_va` = `biases[va]`, `state_va` = `state[va]`", want="Rat")
+        site = GRAPH + "::do_edge_flip::delta_e total"
+        m = one_match(fb, r"let delta_e = (delta_e\([^;]*);", site, "let delta_e = delta_e(…) …;")
+        g.translate("classical_edge_delta_total", site, src, f["body0"] + 1 + m.start(), m.group(0), parse_expr(m.group(1), site, uninterp=("delta_e",)),
+                    [("delta_e", ("fn", ("Nat", "Nat"), "Rat")), ("va", "Nat"), ("vb", "Nat")],
+                    "`let delta_e = delta_e(va, vb) + delta_e(vb, va);` of `do_edge_flip` over the closure `delta_e` (uninterpreted here)", want="Rat")
+        for lit in ("if edges.is_empty() { return; }", "let ((va, vb), _) = edges[indx_edge];", "let p = rng.gen_range(0. ..totalw);", "rng.gen_range(0..edges.len())",
+                    "let indx = cumulative_edge_weights .binary_search_by(|v| v.partial_cmp(&p).expect(\"Couldn't compare values\")); match indx { Ok(indx) => indx, Err(indx) => indx, }"):
+            need(fb, lit, GRAPH + "::do_edge_flip")
+        # do_worm_flip: `let total_he = visit_path.iter().cloned().map(|v| …).sum();`
+        site = GRAPH + "::do_worm_flip::total_he"
+        f = src.fn("do_worm_flip", site)
+        m = one_match(src.body(f), r"let total_he = visit_path\s*\.iter\(\)\s*\.cloned\(\)\s*\.map\(\|v\| (.*?)\)\s*\.sum\(\);", site, "let total_he = visit_path.iter().cloned().map(|v| …).sum();")
+        txt = rewrite(m.group(1), [("biases[v]", "bias_v"), ("state[v]", "state_v")], site)
+        g.translate("classical_worm_bias_term", site, src, f["body0"] + 1 + m.start(1), m.group(0), parse_expr(txt, site),
+                    [("bias_v", "Rat"), ("state_v", "Bool")], "summand of `total_he` in `do_worm_flip`; `bias_v` = `biases[v]`, `state_v` = `state[v]` (the state AFTER the worm's flips)", want="Rat")
+
+    g.section(["Classical"], _c3)
+
+    # ---- C4. classical: get_energy ---------------------------------------------------------------
+    def _c4():
+        src = g.file(GRAPH)
+        site = GRAPH + "::get_energy"
+        f = src.fn("get_energy", site)
+        fb = src.body(f)
+        base = f["body0"] + 1
+        sk = re.search(r"if let Some\(state\) = &self\.state \{\s*state\.iter\(\)\.enumerate\(\)\.fold\(0\.0, \|acc, \(i, si\)\| \{\s*let binding_slice = &self\.binding_mat\[i\];\s*"
+                       r"let total_e: f64 = binding_slice\s*\.iter\(\)\s*\.map\(\|\(indx, j\)\| -> f64 (\{.*?\})\)\s*\.sum\(\);\s*let bias_e = ([^;]*);\s*([^;{}]*?)\s*\}\)\s*\} else \{\s*std::f64::NAN\s*\}\s*$", fb, re.S)
+        if not sk:
+            raise Unknown(site, "the `if let Some(state) = &self.state { state.iter().enumerate().fold(0.0, |acc, (i, si)| { let binding_slice = &self.binding_mat[i]; let total_e: f64 = "
+                                "binding_slice.iter().map(|(indx, j)| -> f64 {…}).sum(); let bias_e = …; <step> }) } else { std::f64::NAN }` skeleton")
+        txt = rewrite(sk.group(1), [("state[*indx]", "state_indx")], site)
+        g.translate("classical_energy_coupling_term", site, src, base + sk.start(1), sk.group(1), parse_expr(txt, site, features=("xor",)),
+                    [("si", "Bool"), ("state_indx", "Bool"), ("j", "Rat")], "summand of `total_e` in `get_energy` (every edge is met from both ends, hence `/ 2.0`); `state_indx` = `state[*indx]`", want="Rat")
+        txt = rewrite(sk.group(2), [("*si", "si"), ("self.biases[i]", "bias")], site)
+        if "*" in txt:
+            raise Unknown(site, "unexpected `*` in `bias_e`")
+        g.translate("classical_energy_bias_term", site, src, base + sk.start(2), sk.group(2), parse_expr(txt, site),
+                    [("si", "Bool"), ("bias", "Rat")], "`bias_e` of `get_energy`; `bias` = `self.biases[i]`", want="Rat")
+        g.translate("classical_energy_fold_step", site, src, base + sk.start(3), sk.group(3), parse_expr(sk.group(3), site),
+                    [("acc", "Rat"), ("total_e", "Rat"), ("bias_e", "Rat")], "fold step of `get_energy` (initial value `0.0`)", want="Rat")
+
+    g.section(["Classical"], _c4)
+
+    # ---- C5. classical: defaults and move choice of do_time_step ----------------------------------
+    def _c5():
+        src = g.file(GRAPH)
+        site = GRAPH + "::do_time_step"
+        f = src.fn("do_time_step", site)
+        fb = src.body(f)
+        base = f["body0"] + 1
+        OPTN = ("opt", "Nat")
+        for var, nm, params, rw, doc in (
+                ("only_basic_moves", "classical_only_basic_default", [("only_basic_moves", ("opt", "Bool"))], [], "default of `only_basic_moves`"),
+                ("nspinupdates", "classical_nspinupdates", [("nspinupdates", OPTN), ("state_len", "Nat")], [("spin_state.len()", "state_len")], "number of single-spin updates of one `do_time_step`; `state_len` = `spin_state.len()`"),
+                ("nedgeupdates", "classical_nedgeupdates", [("nedgeupdates", OPTN), ("edges_len", "Nat")], [("self.edges.len()", "edges_len")], "number of edge updates of one `do_time_step`; `edges_len` = `self.edges.len()`"),
+                ("nwormupdates", "classical_nwormupdates", [("nwormupdates", OPTN)], [], "number of worm updates of one `do_time_step`")):
+            m = one_match(fb, r"let %s = (%s\.[^;]*);" % (var, var), site + "::" + var, "let %s = %s.…;" % (var, var))
+            txt = rewrite(m.group(1), rw, site + "::" + var)
+            ast = parse_expr(txt, site + "::" + var, features=("unwrap_or",))
+            g.translate(nm, site + "::" + var, src, base + m.start(), m.group(0), ast, params, doc + " (`do_time_step`)", want=params[0][1][1])
+        m = one_match(fb, r"let t = ([^;]*);", site + "::t", "let t = …;")
+        g.translate("classical_move_kinds", site + "::t", src, base + m.start(), m.group(0), parse_expr(m.group(1), site + "::t"),
+                    [("only_basic_moves", "Bool")], "number of move kinds the step chooses from: `choice = gen_range(0..t)`, 0 spin, 1 edge, 2 worm", want="Nat")
+        for lit in ("let choice: u8 = self.rng.gen_range(0..t);", "match choice { 0 => (0..nspinupdates).for_each(|_| { Self::do_spin_flip(",
+                    "1 => (0..nedgeupdates).for_each(|_| { Self::do_edge_flip(", "2 => (0..nwormupdates).for_each(|_| { Self::do_worm_flip(", "_ => unreachable!(), }",
+                    "self.cumulative_weight .as_ref() .map(|(v, w)| (v.as_slice(), *w)),"):
+            need(fb, lit, site)
+
+    g.section(["Classical"], _c5)
+
+    # ---- C6. classical: the cumulative table of enable_edge_importance_sampling ---------------------
+    def _c6():
+        src = g.file(GRAPH)
+        site = GRAPH + "::enable_edge_importance_sampling"
+        f = src.fn("enable_edge_importance_sampling", site)
+        fb = src.body(f)
+        base = f["body0"] + 1
+        sk = re.fullmatch(r"\s*self\.cumulative_weight = if enable \{\s*let v = Vec::with_capacity\(self\.edges\.len\(\)\);\s*let \(v, totalw\) =\s*self\.edges\s*\.iter\(\)\s*\.map\(\|\(_, w\)\| (.*?)\)\s*"
+                          r"\.fold\(\(v, 0\.\), \|\(mut accv, accw\), w\| \{\s*accv\.push\((.*?)\);\s*\(accv, (.*?)\)\s*\}\);\s*if ([^{]*?) \{\s*Some\(\(v, totalw\)\)\s*\} else \{\s*None\s*\}\s*\} else \{\s*None\s*\}\s*", fb, re.S)
+        if not sk:
+            raise Unknown(site, "the `self.cumulative_weight = if enable { let v = …; let (v, totalw) = self.edges.iter().map(|(_, w)| <weight>).fold((v, 0.), |(mut accv, accw), w| { accv.push(<x>); (accv, <y>) }); "
+                                "if <guard> { Some((v, totalw)) } else { None } } else { None }` skeleton")
+        g.translate("classical_importance_weight", site, src, base + sk.start(1), sk.group(1), parse_expr(sk.group(1), site), [("w", "Rat")],
+                    "selection weight of an edge of coupling `w` in `enable_edge_importance_sampling`", want="Rat")
+        g.translate("classical_cum_push", site, src, base + sk.start(2), sk.group(2), parse_expr(sk.group(2), site), [("accw", "Rat"), ("w", "Rat")],
+                    "entry pushed to the cumulative table by the fold step (`accw` starts at `0.`)", want="Rat")
+        g.translate("classical_cum_next", site, src, base + sk.start(3), sk.group(3), parse_expr(sk.group(3), site), [("accw", "Rat"), ("w", "Rat")],
+                    "running total after the fold step", want="Rat")
+        g.translate("classical_importance_guard", site, src, base + sk.start(4), sk.group(4), parse_expr(sk.group(4), site), [("totalw", "Rat")],
+                    "the table is kept only under this guard (otherwise uniform selection)", want="Bool")
+
+    g.section(["Classical"], _c6)
+
+    # ---- S1. stepper: timesteps_measure_with_self --------------------------------------------------
+    def _s1():
+        src = g.file(STEPPER)
+        site = STEPPER + "::timesteps_measure_with_self"
+        f = src.fn("timesteps_measure_with_self", site)
+        fb = src.body(f)
+        base = f["body0"] + 1
+        sk = re.fullmatch(r"\s*let mut acc = init_t;\s*let mut steps_measured = 0;\s*let mut total_n = 0;\s*let sampling_freq = (sampling_freq\.[^;]*);\s*"
+                          r"for t in 0\.\.timesteps \{\s*self\.timestep\(beta\);\s*if ([^{]*?) \{\s*acc = state_fold\(acc, self\);\s*steps_measured \+= ([^;]*);\s*total_n \+= ([^;]*);\s*\}\s*\}\s*"
+                          r"let average_n = ([^;]*);\s*\(acc, self\.get_energy_for_average_n\(average_n, beta\)\)\s*", fb, re.S)
+        if not sk:
+            raise Unknown(site, "the `let mut acc = init_t; let mut steps_measured = 0; let mut total_n = 0; let sampling_freq = sampling_freq.…; for t in 0..timesteps { self.timestep(beta); "
+                                "if <cond> { acc = state_fold(acc, self); steps_measured += …; total_n += …; } } let average_n = …; (acc, self.get_energy_for_average_n(average_n, beta))` skeleton")
+        g.translate("stepper_sampling_freq", site, src, base + sk.start(1), sk.group(1), parse_expr(sk.group(1), site, features=("unwrap_or",)),
+                    [("sampling_freq", ("opt", "Nat"))], "`let sampling_freq = …` of `timesteps_measure_with_self`", want="Nat")
+        g.translate("stepper_sample_cond", site, src, base + sk.start(2), sk.group(2), parse_expr(sk.group(2), site),
+                    [("t", "Nat"), ("sampling_freq", "Nat")], "is the state after step `t` (0-based loop variable) sampled", want="Bool")
+        g.translate("stepper_steps_measured_next", site, src, base + sk.start(3), "steps_measured += " + sk.group(3), parse_expr("steps_measured + (%s)" % sk.group(3), site),
+                    [("steps_measured", "Nat")], "`steps_measured += …` as `steps_measured + (…)` (starts at 0)", want="Nat")
+        txt = rewrite(sk.group(4), [("self.get_n()", "n")], site)
+        g.translate("stepper_total_n_next", site, src, base + sk.start(4), "total_n += " + sk.group(4), parse_expr("total_n + (%s)" % txt, site),
+                    [("total_n", "Nat"), ("n", "Nat")], "`total_n += …` as `total_n + (…)` (starts at 0); `n` = `self.get_n()`", want="Nat")
+        g.translate("stepper_average_n", site, src, base + sk.start(5), sk.group(5), parse_expr(sk.group(5), site),
+                    [("total_n", "Nat"), ("steps_measured", "Nat")], "`average_n` handed to `get_energy_for_average_n`", want="Rat")
+
+    g.section(["Stepper"], _s1)
+
+    # ---- S2. stepper: the chunk loop of both tempering drivers -------------------------------------
+    def _s2():
+        src = g.file(TEMPER)
+        items = {}
+        fns = (("timesteps_sample", "tempering_step", r"self\.graphs\s*\.iter_mut\(\)", r"energy_acc\.iter_mut\(\)", 1),
+               ("parallel_timesteps_sample", "parallel_tempering_step", r"self\.graphs\s*\.par_iter_mut\(\)", r"energy_acc\.par_iter_mut\(\)", 2))
+        for fn, stepfn, it1, it2, expect in fns:
+            with g.tolerate(["Stepper"]):
+                site = "%s::%s" % (TEMPER, fn)
+                f = src.fn(fn, site, expect=expect, nth=expect - 1)   # the trait declaration of the parallel driver has no body: Source.fns lists bodies only
+                fb = src.body(f)
+                base = f["body0"] + 1
+                sk = re.search(r"let mut energy_acc = vec!\[0\.0; self\.num_graphs\(\)\];\s*let mut remaining_timesteps = ([^;]*);\s*let mut time_to_swap = ([^;]*);\s*let mut time_to_sample = ([^;]*);\s*"
+                               r"while ([^{]*?) \{\s*let t = ([^;]*);\s*" + it1 + r"\s*\.map\(\|\(g, beta\)\| g\.timesteps\(t, \*beta\)\)\s*\.zip\(" + it2 + r"\)\s*\.for_each\(\|\(te, e\)\| \{\s*\*e \+= ([^;]*);\s*\}\);\s*"
+                               r"time_to_sample -= ([^;]*);\s*time_to_swap -= ([^;]*);\s*remaining_timesteps -= ([^;]*);\s*"
+                               r"if ([^{]*?) \{\s*self\." + stepfn + r"\(\);\s*time_to_swap = ([^;]*);\s*\}\s*if ([^{]*?) \{.*?\.for_each\(\|\(s, g\)\| s\.push\(g\.state_ref\(\)\.to_vec\(\)\)\);\s*time_to_sample = ([^;]*);\s*\}\s*\}"
+                               r"\s*states\s*\.into_iter\(\)\s*\.zip\(energy_acc\.into_iter\(\)\.map\(\|e\| ([^)]*)\)\)\s*\.collect\(\)\s*$", fb, re.S)
+                if not sk:
+                    raise Unknown(site, "the chunk-loop skeleton `let mut energy_acc = vec![0.0; …]; let mut remaining_timesteps = …; let mut time_to_swap = …; let mut time_to_sample = …; while <c> { let t = …; "
+                                        "<graphs>.map(|(g, beta)| g.timesteps(t, *beta)).zip(<energy_acc>).for_each(|(te, e)| { *e += …; }); time_to_sample -= …; time_to_swap -= …; remaining_timesteps -= …; "
+                                        "if <c> { self.%s(); time_to_swap = …; } if <c> { …push…; time_to_sample = …; } } states.into_iter().zip(energy_acc.into_iter().map(|e| …)).collect()`" % stepfn)
+                N3 = [("timesteps", "Nat"), ("replica_swap_freq", "Nat"), ("sampling_freq", "Nat")]
+                CD = [("time_to_sample", "Nat"), ("time_to_swap", "Nat"), ("remaining_timesteps", "Nat")]
+                pieces = (
+                    ("chunk_init_remaining", 1, None, N3, "Nat", "initial `remaining_timesteps`"),
+                    ("chunk_init_to_swap", 2, None, N3, "Nat", "initial `time_to_swap`"),
+                    ("chunk_init_to_sample", 3, None, N3, "Nat", "initial `time_to_sample`"),
+                    ("chunk_continue", 4, None, CD, "Bool", "loop condition"),
+                    ("chunk_t", 5, None, CD, "Nat", "length `t` of the next chunk"),
+                    ("chunk_energy_acc", 6, "e + (%s)", [("e", "Rat"), ("te", "Rat"), ("t", "Nat")], "Rat", "`*e += …` as `e + (…)`: energy accumulator after a chunk of `t` steps of average energy `te`"),
+                    ("chunk_to_sample_dec", 7, "time_to_sample - (%s)", CD + [("t", "Nat")], "Nat", "`time_to_sample -= …` as `time_to_sample - (…)`"),
+                    ("chunk_to_swap_dec", 8, "time_to_swap - (%s)", CD + [("t", "Nat")], "Nat", "`time_to_swap -= …`"),
+                    ("chunk_remaining_dec", 9, "remaining_timesteps - (%s)", CD + [("t", "Nat")], "Nat", "`remaining_timesteps -= …`"),
+                    ("chunk_swap_due", 10, None, CD, "Bool", "condition of the replica-exchange step (after the decrements)"),
+                    ("chunk_to_swap_reset", 11, None, N3, "Nat", "`time_to_swap` after an exchange step"),
+                    ("chunk_sample_due", 12, None, CD, "Bool", "condition of the sampling block (after the decrements)"),
+                    ("chunk_to_sample_reset", 13, None, N3, "Nat", "`time_to_sample` after sampling"),
+                    ("chunk_final_energy", 14, None, [("e", "Rat")] + N3, "Rat", "energy returned per replica from the accumulator `e`"),
+                )
+                for nm, gi, wrap, params, want, doc in pieces:
+                    with g.tolerate(["Stepper"]) as t:
+                        name = t.name = "%s_%s" % (nm, fn)
+                        txt = sk.group(gi) if wrap is None else wrap % sk.group(gi)
+                        body_, _ = g.translate(name, site + "::" + nm, src, base + sk.start(gi), sk.group(gi), parse_expr(txt, site + "::" + nm), params,
+                                               "%s in the chunk loop of `%s`" % (doc, fn), want=want)
+                        items.setdefault(nm, []).append((site + "::" + nm, body_, name, "Stepper"))
+        for nm, its in items.items():
+            same(g, its, "chunk loop `%s` (serial and parallel driver)" % nm)
+
+    g.section(["Stepper"], _s2)
+
+    # ---- R1. rvb: calculate_mult, the accept decision, the early-exit tests, the boundary manager ---
+    def _r1():
+        src = g.file(RVB)
+        bsrc = g.file(BOND)
+        site = RVB + "::calculate_mult"
+        f = src.fn("calculate_mult", site)
+        if flat(f["sig"]) != "fn calculate_mult( bonds_before: &BondContainer<usize>, bonds_after: &BondContainer<usize>, n: usize, ) -> f64":
+            raise Unknown(site, "signature shape")
+        body, ndbg = strip_debug_asserts(src.body(f), site)
+        if ndbg != 1:
+            raise Unknown(site, "expected exactly one debug assertion, found %d" % ndbg)
+        txt = rewrite(body, [("bonds_before.get_total_weight()", "wb"), ("bonds_after.get_total_weight()", "wa")], site)
+        g.translate("rvb_calculate_mult", site, src, f["start"], src.src[f["start"]:f["body1"] + 1], parse_block_body(txt, site),
+                    [("wb", "Rat"), ("wa", "Rat"), ("n", "Nat")],
+                    "`calculate_mult` (src/sse/qmc_traits/rvb.rs; 1 debug assertion dropped); `wb` / `wa` = `bonds_before` / `bonds_after.get_total_weight()`", want="Rat", what="calculate_mult")
+        gf = bsrc.fn("get_total_weight", BOND + "::get_total_weight")
+        if flat(bsrc.body(gf)) != "self.total_weight":
+            raise Unknown(BOND + "::get_total_weight", "body is no longer `self.total_weight`")
+
+    g.section(["Rvb"], _r1)
+
+    def _r2():
+        src = g.file(RVB)
+        site = RVB + "::rvb_update_with_ising_weight::should_mutate"
+        f = src.fn("rvb_update_with_ising_weight", site)
+        fb = src.body(f)
+        m = one_match(fb, r"let should_mutate = ([^;]*);", site, "let should_mutate = …;")
+        txt = rewrite(m.group(1), [("rng.gen_bool", "gen_bool")], site)
+        g.translate("rvb_should_mutate", site, src, f["body0"] + 1 + m.start(), m.group(0), parse_expr(txt, site), [("p_to_flip", "Rat")],
+                    "the accept decision of an RVB proposal from `p_to_flip` = `calculate_flip_prob(…)`", want="Bool", draws=True)
+        need(fb, "if should_mutate { // Great, mutate the graph. mutate_graph(".replace("// Great, mutate the graph. ", ""), site)
+        # the early-exit tests of calculate_flip_prob
+        site = RVB + "::calculate_flip_prob"
+        f = src.fn("calculate_flip_prob", site)
+        fb = src.body(f)
+        ms = list(re.finditer(r"if (mult [^{]*?) \{\s*mult = ([^;]*);\s*break;\s*\}", fb))
+        if len(ms) != 2 or len(re.findall(r"\bbreak;", fb)) != 2:
+            raise Unknown(site, "expected exactly two `if mult … { mult = …; break; }` early exits (and no other `break`), found %d" % len(ms))
+        items = []
+        for k, m in enumerate(ms):
+            with g.tolerate(["Rvb"]) as t:
+                name = t.name = "rvb_mult_early_exit_%d" % (k + 1)
+                s_ = "%s::early exit #%d" % (site, k + 1)
+                ast = ("if", parse_expr(m.group(1), s_), ("some", parse_expr(m.group(2), s_)), ("none",))
+                body_, _ = g.translate(name, s_, src, f["body0"] + 1 + m.start(), m.group(0), ast, [("mult", "Rat")],
+                                       "early exit #%d of `calculate_flip_prob`: `some v` = the sweep is abandoned with `mult = v`, `none` = it continues" % (k + 1), want=("opt", "Rat"))
+                items.append((s_, body_, name, "Rvb"))
+        same(g, items, "early exit of calculate_flip_prob")
+        for lit, n in (("let mut mult = 1.0;", 1), ("mult *= ising_flip_weight;", 1), ("mult *= calculate_mult(&bonds_before, &bonds_after, n_bonds);", 2),
+                       ("let ising_flip_weight = ising_ratio(op);", 1)):
+            need(fb, lit, site, n)
+
+    g.section(["Rvb"], _r2)
+
+    def _r3():
+        src = g.file(RVB)
+        site = RVB + "::pop_index"
+        f = src.fn("pop_index", site, expect=2, nth=1)   # nth 0 is … (trait declarations have no body); the impl for WeightedBoundaryManager
+        fb = src.body(f)
+        base = f["body0"] + 1
+        m = one_match(fb, r"let total_weight =\s*([^;]*);", site, "let total_weight = …;")
+        txt = rewrite(flat(m.group(1)), [("self.boundary_flips.get_total_weight()", "w_flips"), ("self.boundary_noflips.get_total_weight()", "w_noflips")], site)
+        g.translate("rvb_pop_total_weight", site, src, base + m.start(), m.group(0), parse_expr(txt, site), [("w_flips", "Rat"), ("w_noflips", "Rat")],
+                    "`total_weight` of `WeightedBoundaryManager::pop_index`; `w_flips` / `w_noflips` = `self.boundary_flips` / `self.boundary_noflips.get_total_weight()`", want="Rat")
+        m = one_match(fb, r"let f_ratio = ([^;]*);", site, "let f_ratio = …;")
+        txt = rewrite(m.group(1), [("self.boundary_flips.get_total_weight()", "w_flips")], site)
+        g.translate("rvb_pop_f_ratio", site, src, base + m.start(), m.group(0), parse_expr(txt, site), [("w_flips", "Rat"), ("w_noflips", "Rat"), ("total_weight", "Rat")],
+                    "probability of popping from `boundary_flips`", want="Rat")
+        for lit in ("let pick_flips = rng.gen_bool(f_ratio);", "let (boundary, poss) = if pick_flips { (&mut self.boundary_flips, &mut self.var_pos_popped) } else { (&mut self.boundary_noflips, &mut self.var_nopos_popped) };",
+                    "let (v, w) = *boundary.get_random(rng).unwrap();"):
+            need(fb, lit, site)
+        site = RVB + "::push_adjacent"
+        f = src.fn("push_adjacent", site, expect=2, nth=1)
+        fb = src.body(f)
+        base = f["body0"] + 1
+        ms = list(re.finditer(r"let weight = ([^;]*);", fb))
+        if len(ms) != 2:
+            raise Unknown(site, "expected two `let weight = …;`, found %d" % len(ms))
+        g.translate("rvb_push_weight_default", site, src, base + ms[0].start(), ms[0].group(0), parse_expr(ms[0].group(1), site, features=("unwrap_or",)),
+                    [("weight", ("opt", "Rat"))], "`let weight = weight.unwrap_or(…)` of `WeightedBoundaryManager::push_adjacent`", want="Rat")
+        txt = rewrite(ms[1].group(1), [("boundary.get_weight(&varpos)", "old_weight")], site)
+        g.translate("rvb_push_new_weight", site, src, base + ms[1].start(), ms[1].group(0), parse_expr(txt, site, features=("unwrap_or",)),
+                    [("old_weight", ("opt", "Rat")), ("weight", "Rat")], "weight stored for a boundary cell pushed again; `old_weight` = `boundary.get_weight(&varpos)`", want="Rat")
+        need(fb, "if !poss[indx] { let weight = boundary.get_weight(&varpos).unwrap_or(0.) + weight; boundary.insert(varpos, weight); }".replace("boundary.get_weight(&varpos).unwrap_or(0.) + weight", flat(ms[1].group(1))), site)
+
+    g.section(["Rvb"], _r3)
+
+    # ---- B1. BondContainer: weight bookkeeping ------------------------------------------------------
+    def _b1():
+        src = g.file(BOND)
+        T = [("total_weight", "Rat")]
+        # insert
+        site = BOND + "::insert"
+        f = src.fn("insert", site)
+        fb = src.body(f)
+        base = f["body0"] + 1
+        sk = re.fullmatch(r"\s*let entry_index = value\.clone\(\)\.into\(\);\s*if ([^{]*?) \{\s*self\.map\.resize\(([^,]*), None\);\s*\}\s*match self\.map\[entry_index\] \{\s*Some\(index\) => \{\s*"
+                          r"let old_weight = self\.keys\[index\]\.1;\s*self\.keys\[index\]\.1 = weight;\s*self\.total_weight \+= ([^;]*);\s*self\.correct_total_weight\(\);\s*false\s*\}\s*"
+                          r"None => \{\s*self\.map\[entry_index\] = Some\(([^;]*)\);\s*self\.keys\.push\(\(value, weight\)\);\s*self\.total_weight \+= ([^;]*);\s*true\s*\}\s*\}\s*", fb, re.S)
+        if not sk:
+            raise Unknown(site, "the `let entry_index = …; if <c> { self.map.resize(<len>, None); } match self.map[entry_index] { Some(index) => { let old_weight = self.keys[index].1; self.keys[index].1 = weight; "
+                                "self.total_weight += …; self.correct_total_weight(); false } None => { self.map[entry_index] = Some(…); self.keys.push((value, weight)); self.total_weight += …; true } }` skeleton")
+        ML = [("entry_index", "Nat"), ("map_len", "Nat")]
+        g.translate("bc_grow_cond", site, src, base + sk.start(1), sk.group(1), parse_expr(rewrite(sk.group(1), [("self.map.len()", "map_len")], site), site), ML,
+                    "`insert`: is the address table resized; `map_len` = `self.map.len()`", want="Bool")
+        g.translate("bc_grow_len", site, src, base + sk.start(2), sk.group(2), parse_expr(sk.group(2), site), ML, "`insert`: new length of the address table", want="Nat")
+        g.translate("bc_insert_update_total", site, src, base + sk.start(3), "self.total_weight += " + sk.group(3), parse_expr("total_weight + (%s)" % sk.group(3), site),
+                    T + [("weight", "Rat"), ("old_weight", "Rat")], "`insert` of a key already present: `self.total_weight += …` as `total_weight + (…)` (then `correct_total_weight`)", want="Rat")
+        g.translate("bc_insert_new_address", site, src, base + sk.start(4), sk.group(4), parse_expr(rewrite(sk.group(4), [("self.keys.len()", "keys_len")], site), site),
+                    [("keys_len", "Nat")], "`insert` of a new key: address stored in the table; `keys_len` = `self.keys.len()` before the push", want="Nat")
+        g.translate("bc_insert_new_total", site, src, base + sk.start(5), "self.total_weight += " + sk.group(5), parse_expr("total_weight + (%s)" % sk.group(5), site),
+                    T + [("weight", "Rat")], "`insert` of a new key: `self.total_weight += …` as `total_weight + (…)` (NOT followed by `correct_total_weight`)", want="Rat")
+        # remove_index
+        site = BOND + "::remove_index"
+        f = src.fn("remove_index", site)
+        fb = src.body(f)
+        base = f["body0"] + 1
+        sk = re.fullmatch(r"\s*let last_indx = ([^;]*);\s*self\.keys\.swap\(keys_index, last_indx\);\s*let bond_number = self\.keys\[keys_index\]\.0\.clone\(\)\.into\(\);\s*"
+                          r"let old_indx = self\.map\[bond_number\]\.as_mut\(\)\.unwrap\(\);\s*\*old_indx = keys_index;\s*let \(out, weight\) = self\.keys\.pop\(\)\.unwrap\(\);\s*"
+                          r"self\.map\[out\.clone\(\)\.into\(\)\] = None;\s*self\.total_weight -= ([^;]*);\s*self\.correct_total_weight\(\);\s*\(out, weight\)\s*", fb, re.S)
+        if not sk:
+            raise Unknown(site, "the swap-remove skeleton `let last_indx = …; self.keys.swap(keys_index, last_indx); …; *old_indx = keys_index; let (out, weight) = self.keys.pop().unwrap(); "
+                                "self.map[out.clone().into()] = None; self.total_weight -= …; self.correct_total_weight(); (out, weight)`")
+        g.translate("bc_last_index", site, src, base + sk.start(1), sk.group(1), parse_expr(rewrite(sk.group(1), [("self.keys.len()", "keys_len")], site), site),
+                    [("keys_len", "Nat")], "`remove_index`: position the removed key is swapped to; `keys_len` = `self.keys.len()`", want="Nat")
+        g.translate("bc_remove_total", site, src, base + sk.start(2), "self.total_weight -= " + sk.group(2), parse_expr("total_weight - (%s)" % sk.group(2), site),
+                    T + [("weight", "Rat")], "`remove_index`: `self.total_weight -= …` as `total_weight - (…)` (then `correct_total_weight`)", want="Rat")
+        # correct_total_weight
+        site = BOND + "::correct_total_weight"
+        f = src.fn("correct_total_weight", site)
+        body, ndbg = strip_debug_asserts(src.body(f), site)
+        sk = re.fullmatch(r"\s*if ([^{]*?) \{\s*self\.total_weight = ([^;]*);\s*\}\s*", body, re.S)
+        if not sk or ndbg != 1:
+            raise Unknown(site, "the `if <c> { self.total_weight = <v>; debug_assert!(…); }` skeleton")
+        rw = [("self.total_weight", "total_weight")]
+        ast = ("if", parse_expr(rewrite(sk.group(1), rw, site), site), parse_expr(sk.group(2), site), ("var", "total_weight"))
+        g.translate("bc_correct_total", site, src, f["start"], src.src[f["start"]:f["body1"] + 1], ast, T,
+                    "`correct_total_weight` as a function of the running total: `if <c> { self.total_weight = <v>; }` ↦ `if c then v else total_weight` (1 debug assertion dropped)", want="Rat", what="correct_total_weight")
+        # get_random
+        site = BOND + "::get_random"
+        f = src.fn("get_random", site)
+        fb = src.body(f)
+        base = f["body0"] + 1
+        sk = re.fullmatch(r"\s*if self\.keys\.is_empty\(\) \{\s*None\s*\} else \{\s*let mut p = r\.gen_range\(0\. \.\.self\.total_weight\);\s*let mut i = 0;\s*while i < self\.keys\.len\(\) \{\s*"
+                          r"p -= ([^;]*);\s*if ([^{]*?) \{\s*break;\s*\}\s*i \+= 1\s*\}\s*Some\(&self\.keys\[i\]\)\s*\}\s*", fb, re.S)
+        if not sk:
+            raise Unknown(site, "the `if self.keys.is_empty() { None } else { let mut p = r.gen_range(0. ..self.total_weight); let mut i = 0; while i < self.keys.len() { p -= …; if <c> { break; } i += 1 } Some(&self.keys[i]) }` skeleton")
+        PW = [("p", "Rat"), ("w", "Rat")]
+        rw = [("self.keys[i].1", "w")]
+        g.translate("bc_pick_sub", site, src, base + sk.start(1), "p -= " + sk.group(1), parse_expr("p - (%s)" % rewrite(sk.group(1), rw, site), site), PW,
+                    "`get_random`: `p -= …` as `p - (…)`; `w` = `self.keys[i].1`", want="Rat")
+        g.translate("bc_pick_stop", site, src, base + sk.start(2), sk.group(2), parse_expr(rewrite(sk.group(2), rw, site), site), PW,
+                    "`get_random`: is key `i` selected (`p` already decremented); `w` = `self.keys[i].1`", want="Bool")
+
+    g.section(["BondContainer"], _b1)
+
+    # ---- A1. autocorrelation: mean, centring, normalisation, final division, spin values -------------
+    def _a1():
+        src = g.file(AUTO)
+        site = AUTO + "::fft_autocorrelation"
+        f = src.fn("fft_autocorrelation", site)
+        fb = src.body(f)
+        base = f["body0"] + 1
+        sk = re.fullmatch(r"\s*let tmax = samples\.len\(\);\s*let n = samples\[0\]\.len\(\);\s*let means = \(0\.\.n\)\s*\.map\(\|i\| ([^;]*?)\)\s*\.collect::<Vec<_>>\(\);\s*"
+                          r"let mut input = \(0\.\.n\)\s*\.map\(\|i\| \{\s*let mut v = \(0\.\.tmax\)\s*\.map\(\|t\| Complex::<f64>::new\(([^;]*?), 0\.0\)\)\s*\.collect::<Vec<Complex<f64>>>\(\);\s*"
+                          r"let norm = ([^;]*);\s*v\.iter_mut\(\)\.for_each\(\|c\| c\.div_assign\(norm\)\);\s*v\s*\}\)\s*\.collect::<Vec<_>>\(\);\s*"
+                          r"let mut planner = FftPlanner::new\(\);\s*let fft = planner\.plan_fft_forward\(tmax\);\s*let mut iplanner = FftPlanner::new\(\);\s*let ifft = iplanner\.plan_fft_inverse\(tmax\);\s*"
+                          r"input\.iter_mut\(\)\.for_each\(\|input\| \{\s*fft\.process\(input\);\s*input\s*\.iter_mut\(\)\s*\.for_each\(\|c\| \*c = Complex::new\(c\.norm_sqr\(\), 0\.0\)\);\s*ifft\.process\(input\);\s*\}\);\s*"
+                          r"\(0\.\.tmax\)\s*\.map\(\|t\| ([^;]*?)\)\s*\.collect\(\)\s*", fb, re.S)
+        if not sk:
+            raise Unknown(site, "the skeleton of fft_autocorrelation (means / centred + normalised columns / forward FFT, norm_sqr, inverse FFT / final map)")
+        SUM_T = "(0..tmax).map(|t| samples[t][i]).sum::<f64>()"
+        g.translate("autocorr_mean", site, src, base + sk.start(1), sk.group(1), parse_expr(rewrite(sk.group(1), [(SUM_T, "col_sum")], site), site),
+                    [("col_sum", "Rat"), ("tmax", "Nat"), ("n", "Nat")], "mean of column `i`; `col_sum` = `%s`" % SUM_T, want="Rat")
+        g.translate("autocorr_center", site, src, base + sk.start(2), sk.group(2), parse_expr(rewrite(sk.group(2), [("samples[t][i]", "x"), ("means[i]", "mean")], site), site),
+                    [("x", "Rat"), ("mean", "Rat")], "real part of the centred entry (imaginary part `0.0`); `x` = `samples[t][i]`, `mean` = `means[i]`", want="Rat")
+        SUM_SQ = "v.iter().map(|v| (v.conj() * v).re).sum::<f64>()"
+        g.translate("autocorr_norm", site, src, base + sk.start(3), sk.group(3), parse_expr(rewrite(sk.group(3), [(SUM_SQ, "sum_sq")], site), site, features=("sqrt",)),
+                    [("sqrt", FN_RR), ("sum_sq", "Rat")], "`norm` every centred entry is divided by; `sum_sq` = `%s` (= Σ re² since the imaginary parts are 0), `sqrt` = `f64::sqrt` (uninterpreted)" % SUM_SQ, want="Rat")
+        SUM_I = "(0..n).map(|i| input[i][t].re).sum::<f64>()"
+        g.translate("autocorr_final", site, src, base + sk.start(4), sk.group(4), parse_expr(rewrite(sk.group(4), [(SUM_I, "lag_sum")], site), site),
+                    [("lag_sum", "Rat"), ("n", "Nat"), ("tmax", "Nat")], "output entry `t`; `lag_sum` = `%s` (the unnormalised inverse FFT has multiplied every column by `tmax`)" % SUM_I, want="Rat")
+        # the two spin-value closures
+        items = []
+        for fn, regex, rw in (("calculate_variable_autocorrelation", r"\.map\(\|b\| (if [^)]*?\})\)", []),
+                              ("calculate_spin_product_autocorrelation", r"\.map\(\|v\| (if [^)]*?\})\)", [("sample[*v]", "b")])):
+            with g.tolerate(["Autocorr"]) as t:
+                s_ = "%s::%s::spin value" % (AUTO, fn)
+                name = t.name = "autocorr_spin_value_" + fn
+                f2 = src.fn(fn, s_)
+                m = one_match(src.body(f2), regex, s_, "spin-value closure")
+                body_, _ = g.translate(name, s_, src, f2["body0"] + 1 + m.start(), m.group(0), parse_expr(rewrite(m.group(1), rw, s_), s_), [("b", "Bool")],
+                                       "value of a spin in `%s`" % fn, want="Rat")
+                items.append((s_, body_, name, "Autocorr"))
+        same(g, items, "spin value closure")
+        need(src.body(src.fn("calculate_spin_product_autocorrelation", site)), "vs.iter() .map(|v| if sample[*v] { 1.0 } else { -1.0 }) .product()", AUTO + "::calculate_spin_product_autocorrelation")
+
+    g.section(["Autocorr"], _a1)
 
 
 def strip_debug_asserts(text, site):
